@@ -250,10 +250,146 @@ package core
 //@   ensures  passes:     called != nil ==> result != nil
 //@   ensures  nosentinel: !is(result, fs_db.ErrTxSerialization)
 
+// pendingNode: a version node that was popped from its transaction's list and whose partner is still in
+// the all-store (to be unlinked and released by the deferred cleanup).
+//@ pure func pendingNode(u *UseCase, n *core.Node[model.File]) bool =
+//@     n != nil && toplevel(n) && n.owner == nil && n.linkOf == nil && linked(u, n) && !n.inPool && !n.link.inPool && n != n.link
+// latestSeq: sequence number of the newest version of key k in tx (0: none).
+//@ pure func latestSeq(tx *core.Transaction, k string) int =
+//@     ite(tx != nil && has(tx.store, k) && len(tx.store[k].l.elems) > 0, tx.store[k].l.elems[len(tx.store[k].l.elems)-1].v.Seq, 0)
+
+// oldLatest: the same at the time the function under contract was entered, for the transaction registered as id then.
+//@ pure func oldLatest(u *UseCase, id string, k string) int =
+//@     old(latestSeq(ite(has(u.txStore.store, id), u.txStore.store[id], nil), k))
+
 //@ func (*UseCase).UpdateTx
 //@   requires inv:    ucInv(u)
+//@   requires ids:    oldTxId != newTxId && newTxId != ""
+//@   modifies model.File.*, core.Node[model.File].next, core.Node[model.File].prev, core.Node[model.File].link, core.Node[model.File].linkOf, core.Node[model.File].owner, core.Node[model.File].idx,
+//@            core.Node[model.File].inPool, core.List[model.File].elems, core.List[model.File].base, core.file.arr, core.file.withoutSearch, core.file.gtx, core.file.gkey,
+//@            mem[*core.Node[model.File]], mem[*core.file], backing.owner, core.Transaction.store, core.Transaction.gid, core.Transactions.store,
+//@            map[string]*core.file, map[string]*core.Transaction, mapref.mowner,
+//@            world.recSeq, world.recTx, world.recKey, world.hasRec, world.logSeq, world.logCid, cell[uint64]
+//@   ensures  inv:    ucInv(u)
 //@   ensures  gone:   !has(u.txStore.store, oldTxId)
+//@   ensures  unknown: !old(has(u.txStore.store, oldTxId)) ==> result1 == nil && len(result0) == 0
+// write-write conflict: exactly when a horizon is given and some key the transaction wrote has a newer
+// version in the target than the horizon
+//@   ensures  conflict: old(has(u.txStore.store, oldTxId)) && filter.BeforeSeq != nil &&
+//@                         (exists k string :: old(has(u.txStore.store[oldTxId].store, k)) && oldLatest(u, newTxId, k) > old(*filter.BeforeSeq)) ==>
+//@                         result1 == fs_db.ErrTxSerialization
+//@   ensures  noconflict: result1 == fs_db.ErrTxSerialization ==> old(has(u.txStore.store, oldTxId)) && filter.BeforeSeq != nil &&
+//@                         (exists k string :: old(has(u.txStore.store[oldTxId].store, k)) && oldLatest(u, newTxId, k) > old(*filter.BeforeSeq))
+// what is linked into the target is what was handed to the version-record repository, with the same numbers
+//@   hint after (*UseCase).storeToTx logged: rangeindex >= 0 && len(old(world.logSeq)) + rangeindex < len(world.logSeq) &&
+//@                         f.Seq == world.logSeq[len(old(world.logSeq)) + rangeindex] && f.ContentId == world.logCid[len(old(world.logCid)) + rangeindex]
+//@   hint after (*file).PopBack free:     forall i int :: 0 <= i && i < len(freeNodes) ==> pendingNode(u, freeNodes[i])
+//@   hint after (*file).PopBack popped:   result != nil ==> pendingNode(u, result) && forall i int :: 0 <= i && i < len(freeNodes) ==> freeNodes[i] != result
+//@   hint after (*file).PopBack newsame:  forall k string :: latestSeq(newTx, k) == oldLatest(u, newTxId, k)
+//@   hint after (*file).PopBack txi:      txInv(tx)
+//@   hint after (*file).PopBack all:      txInv(&u.allStore)
+//@   hint after (*file).PopBack regs:     forall id string :: has(u.txStore.store, id) ==> regOk(u, id)
+//@   hint after Next free:     forall i int :: 0 <= i && i < len(freeNodes) ==> pendingNode(u, freeNodes[i])
+//@   hint after Next popped:   pendingNode(u, n) && forall i int :: 0 <= i && i < len(freeNodes) ==> freeNodes[i] != n
+//@   hint after Next seqs:     seqInv()
+//@   hint after Next txi:      txInv(tx)
+//@   hint after Next all:      txInv(&u.allStore)
+//@   hint after Next regs:     forall id string :: has(u.txStore.store, id) ==> regOk(u, id)
+//@   hint after Next links:    linkInv(u)
+//@   hint after append free:     forall i int :: 0 <= i && i < len(freeNodes) ==> pendingNode(u, freeNodes[i])
+//@   hint after append popped:   pendingNode(u, n) && forall i int :: 0 <= i && i < len(freeNodes) ==> freeNodes[i] != n
+//@   hint after append txi:      txInv(tx)
+//@   hint after append all:      txInv(&u.allStore)
+//@   hint after append regs:     forall id string :: has(u.txStore.store, id) ==> regOk(u, id)
+//@   hint after append links:    linkInv(u)
+//@   hint after append newsame:  forall k string :: latestSeq(newTx, k) == oldLatest(u, newTxId, k)
+//@   hint after append#3 free:     forall i int :: 0 <= i && i < len(freeNodes) ==> pendingNode(u, freeNodes[i])
+//@   hint after append#3 popped:   pendingNode(u, n) && forall i int :: 0 <= i && i < len(freeNodes) ==> freeNodes[i] != n
+//@   hint after append#3 txi:      txInv(tx)
+//@   hint after append#3 all:      txInv(&u.allStore)
+//@   hint after append#3 regs:     forall id string :: has(u.txStore.store, id) ==> regOk(u, id)
+//@   hint after append#3 links:    linkInv(u)
+//@   hint after append#3 newsame:  forall k string :: latestSeq(newTx, k) == oldLatest(u, newTxId, k)
+//@   hint before (*file).PopFront free:     forall i int :: 0 <= i && i < len(freeNodes) ==> pendingNode(u, freeNodes[i])
+//@   hint before (*file).PopFront distinct: forall i, j int :: 0 <= i && i < j && j < len(freeNodes) ==> freeNodes[i] != freeNodes[j]
+//@   hint before (*file).PopFront newsame:  forall k string :: latestSeq(newTx, k) == oldLatest(u, newTxId, k)
+//@   hint before (*file).PopFront txi:      txInv(tx)
+//@   hint before (*file).PopFront all:      txInv(&u.allStore)
+//@   hint before (*file).PopFront regs:     forall id string :: has(u.txStore.store, id) ==> regOk(u, id)
+//@   hint before (*file).PopFront links:    linkInv(u)
+//@   hint after (*file).PopFront free:      forall i int :: 0 <= i && i < len(freeNodes) ==> pendingNode(u, freeNodes[i])
+//@   hint after (*file).PopFront popped:    result != nil ==> pendingNode(u, result) && forall i int :: 0 <= i && i < len(freeNodes) ==> freeNodes[i] != result
+//@   hint after (*file).PopFront newsame:   forall k string :: latestSeq(newTx, k) == oldLatest(u, newTxId, k)
+//@   hint after (*file).PopFront txi:       txInv(tx)
+//@   hint after (*file).PopFront all:       txInv(&u.allStore)
+//@   hint after (*file).PopFront regs:      forall id string :: has(u.txStore.store, id) ==> regOk(u, id)
+//@   hint before (*file).PopFront#2 free:     forall i int :: 0 <= i && i < len(freeNodes) ==> pendingNode(u, freeNodes[i])
+//@   hint before (*file).PopFront#2 distinct: forall i, j int :: 0 <= i && i < j && j < len(freeNodes) ==> freeNodes[i] != freeNodes[j]
+//@   hint before (*file).PopFront#2 newsame:  forall k string :: latestSeq(newTx, k) == oldLatest(u, newTxId, k)
+//@   hint before (*file).PopFront#2 txi:      txInv(tx)
+//@   hint before (*file).PopFront#2 all:      txInv(&u.allStore)
+//@   hint before (*file).PopFront#2 regs:     forall id string :: has(u.txStore.store, id) ==> regOk(u, id)
+//@   hint before (*file).PopFront#2 links:    linkInv(u)
+//@   hint after (*file).PopFront#2 free:      forall i int :: 0 <= i && i < len(freeNodes) ==> pendingNode(u, freeNodes[i])
+//@   hint after (*file).PopFront#2 popped:    result != nil ==> pendingNode(u, result) && forall i int :: 0 <= i && i < len(freeNodes) ==> freeNodes[i] != result
+//@   hint after (*file).PopFront#2 newsame:   forall k string :: latestSeq(newTx, k) == oldLatest(u, newTxId, k)
+//@   hint after (*file).PopFront#2 txi:       txInv(tx)
+//@   hint after (*file).PopFront#2 all:       txInv(&u.allStore)
+//@   hint after (*file).PopFront#2 regs:      forall id string :: has(u.txStore.store, id) ==> regOk(u, id)
 //@ loop (*UseCase).UpdateTx#1
 //@   invariant inv:       ucInv(u) && tx != nil && toplevel(tx) && txInv(tx) && !tx.WithoutSearch && tx.store == $range
+//@   invariant detached:  !has(u.txStore.store, oldTxId) && forall id string :: has(u.txStore.store, id) ==> u.txStore.store[id] != tx
+//@   invariant target:    newTx != nil && has(u.txStore.store, newTxId) && u.txStore.store[newTxId] == newTx && newTx != tx
+//@   invariant emptied:   forall k string :: seen(k) ==> has(tx.store, k) && len(tx.store[k].l.elems) == 0
+//@   invariant free:      forall i int :: 0 <= i && i < len(freeNodes) ==> pendingNode(u, freeNodes[i])
+//@   invariant distinct:  forall i, j int :: 0 <= i && i < j && j < len(freeNodes) ==> freeNodes[i] != freeNodes[j]
+//@   invariant own:       (backing(freeNodes) == nil || fresh(backing(freeNodes))) && (backing(files) == nil || fresh(backing(files))) && (backing(deleteFiles) == nil || fresh(backing(deleteFiles)))
+//@   invariant conflict:  (err == nil || err == fs_db.ErrTxSerialization) &&
+//@                        (err != nil <==> (filter.BeforeSeq != nil && exists k string :: seen(k) && oldLatest(u, newTxId, k) > *filter.BeforeSeq))
+//@   invariant newsame:   (forall k string :: latestSeq(newTx, k) == oldLatest(u, newTxId, k)) && (filter.BeforeSeq != nil ==> *filter.BeforeSeq == old(*filter.BeforeSeq))
+//@   invariant keys:      forall k string :: has(tx.store, k) == old(has(u.txStore.store[oldTxId].store, k))
+//@   invariant nolog:     world.logSeq == old(world.logSeq) && world.logCid == old(world.logCid)
 //@ loop (*UseCase).UpdateTx#2
 //@   invariant inv:       ucInv(u) && tx != nil && toplevel(tx) && txInv(tx) && !tx.WithoutSearch && tx.store == $range
+//@   invariant detached:  !has(u.txStore.store, oldTxId) && forall id string :: has(u.txStore.store, id) ==> u.txStore.store[id] != tx
+//@   invariant target:    newTx != nil && has(u.txStore.store, newTxId) && u.txStore.store[newTxId] == newTx && newTx != tx
+//@   invariant cur:       f != nil && has(tx.store, f.gkey) && tx.store[f.gkey] == f && seen(f.gkey)
+//@   invariant emptied:   forall k string :: seen(k) && k != f.gkey ==> has(tx.store, k) && len(tx.store[k].l.elems) == 0
+//@   invariant free:      forall i int :: 0 <= i && i < len(freeNodes) ==> pendingNode(u, freeNodes[i])
+//@   invariant distinct:  forall i, j int :: 0 <= i && i < j && j < len(freeNodes) ==> freeNodes[i] != freeNodes[j]
+//@   invariant node:      n != nil ==> pendingNode(u, n) && forall i int :: 0 <= i && i < len(freeNodes) ==> freeNodes[i] != n
+//@   invariant done:      n == nil ==> len(f.l.elems) == 0
+//@   invariant own:       (backing(freeNodes) == nil || fresh(backing(freeNodes))) && (backing(files) == nil || fresh(backing(files))) && (backing(deleteFiles) == nil || fresh(backing(deleteFiles)))
+//@   invariant conflict:  (err == nil || err == fs_db.ErrTxSerialization) &&
+//@                        (err != nil <==> (filter.BeforeSeq != nil && exists k string :: seen(k) && oldLatest(u, newTxId, k) > *filter.BeforeSeq))
+//@   invariant newsame:   (forall k string :: latestSeq(newTx, k) == oldLatest(u, newTxId, k)) && (filter.BeforeSeq != nil ==> *filter.BeforeSeq == old(*filter.BeforeSeq))
+//@   invariant keys:      forall k string :: has(tx.store, k) == old(has(u.txStore.store[oldTxId].store, k))
+//@   invariant nolog:     world.logSeq == old(world.logSeq) && world.logCid == old(world.logCid)
+// the durable batch: every version is re-sequenced and handed to the repository with the number it will be linked under
+//@ loop (*UseCase).UpdateTx>(*UseCase).UpdateTx$4#1
+//@   invariant idx:       -1 <= rangeindex && rangeindex + 1 <= len(files)
+//@   decreases len(files) - rangeindex
+//@   invariant inv:       ucInv(u)
+//@   invariant log:       len(world.logSeq) == len(old(world.logSeq)) + rangeindex + 1 && len(world.logCid) == len(old(world.logCid)) + rangeindex + 1 &&
+//@                        forall j int :: 0 <= j && j <= rangeindex ==> world.logSeq[len(old(world.logSeq)) + j] == files[j].Seq && world.logCid[len(old(world.logCid)) + j] == files[j].ContentId
+//@   invariant above:     forall j int :: 0 <= j && j <= rangeindex ==> files[j].Seq <= sequence.seq && forall m *core.Node[model.File] :: m.owner != nil ==> m.v.Seq < files[j].Seq
+//@   invariant incr:      forall a, b int :: 0 <= a && a < b && b <= rangeindex ==> files[a].Seq < files[b].Seq
+//@ loop (*UseCase).UpdateTx#3
+//@   invariant idx:       -1 <= rangeindex && rangeindex + 1 <= len(files)
+//@   decreases len(files) - rangeindex
+//@   invariant inv:       ucInv(u) && newTx != nil && has(u.txStore.store, newTxId) && u.txStore.store[newTxId] == newTx && !has(u.txStore.store, oldTxId)
+//@   invariant log:       len(world.logSeq) == len(old(world.logSeq)) + len(files) &&
+//@                        forall j int :: 0 <= j && j < len(files) ==> world.logSeq[len(old(world.logSeq)) + j] == files[j].Seq && world.logCid[len(old(world.logCid)) + j] == files[j].ContentId
+//@   invariant above:     forall j int :: rangeindex < j && j < len(files) ==> files[j].Seq > 0 && files[j].Seq <= sequence.seq && forall m *core.Node[model.File] :: m.owner != nil ==> m.v.Seq < files[j].Seq
+//@   invariant incr:      forall a, b int :: 0 <= a && a < b && b < len(files) ==> files[a].Seq < files[b].Seq
+//@   invariant free:      forall i int :: 0 <= i && i < len(freeNodes) ==> pendingNode(u, freeNodes[i])
+//@   invariant distinct:  forall i, j int :: 0 <= i && i < j && j < len(freeNodes) ==> freeNodes[i] != freeNodes[j]
+//@   invariant txempty:   tx != nil && toplevel(tx) && txInv(tx) && (forall k string :: has(tx.store, k) ==> len(tx.store[k].l.elems) == 0) && forall id string :: has(u.txStore.store, id) ==> u.txStore.store[id] != tx
+// the deferred cleanup: every popped node's partner is unlinked from the all-store and both are released
+//@ loop (*UseCase).UpdateTx>(*UseCase).UpdateTx$2#1
+//@   invariant idx:       -1 <= rangeindex && rangeindex + 1 <= len(freeNodes)
+//@   decreases len(freeNodes) - rangeindex
+//@   invariant inv:       ucInv(u) && !has(u.txStore.store, oldTxId)
+//@   invariant rest:      forall i int :: rangeindex < i && i < len(freeNodes) ==> pendingNode(u, freeNodes[i])
+//@   invariant distinct:  forall i, j int :: 0 <= i && i < j && j < len(freeNodes) ==> freeNodes[i] != freeNodes[j]
+//@   invariant txempty:   tx != nil && toplevel(tx) && txInv(tx) && (forall k string :: has(tx.store, k) ==> len(tx.store[k].l.elems) == 0) && forall id string :: has(u.txStore.store, id) ==> u.txStore.store[id] != tx
